@@ -44,14 +44,8 @@ _FNS = {}
 
 
 def _raise_cls(name):
-    import builtins
-    import glom
-    cls = getattr(builtins, name, None) or getattr(glom, name)
-
-    def raiser(*a):
-        raise cls('boom')
-    raiser.__name__ = 'raise_' + name
-    return raiser
+    import exccat
+    return exccat.raiser(name)
 
 
 def fn_of(desc):
